@@ -462,12 +462,16 @@ def stream_tool(res: Result, tier: str, driver_ok: bool, ref: list[tuple[str, st
     lines = []
     cases = []
     with tempfile.TemporaryDirectory(prefix="kskm_c17_") as d:
-        for n, size in enumerate(sizes):
-            data = r.randbytes(size)
+        datas = [r.randbytes(size) for size in sizes]
+        # text-like inputs: a tool that normalises its input (newlines, whitespace, NULs, encodings) shows another digest
+        datas += [b"\n", b"hello\n", b"hello\n\n", b"hello\r\n", b"  padded  ", b"\thello", b"\x00" * 32, b"a\x00b\x00", b"\xff\xfe\x00",
+                  "d\u00e9j\u00e0 vu\n".encode(), b"\xef\xbb\xbfbom\n", KSR_FILE.read_bytes(), SKR_FILE.read_bytes().rstrip() + b"\n\n"]
+        for n, data in enumerate(datas):
+            size = len(data)
             for mode in ("file", "stdin"):
                 buf = io.StringIO()
                 if mode == "file":
-                    fn = str(Path(d) / f"random-{size}.tmp")
+                    fn = str(Path(d) / f"random-{n}-{size}.tmp")
                     Path(fn).write_bytes(data)
                     with contextlib.redirect_stdout(buf):
                         out = run_impl(lambda: tool.words(fn))
@@ -522,17 +526,22 @@ def _loader_case(kind: str, contents: list[bytes], tag: str) -> dict[str, Any]:
     path = "/verif-world/ksr.xml" if kind == "ksr" else "/verif-world/skr.xml"
     world = World(path, contents)
     mod = kl if kind == "ksr" else sl
+    log_contents = tag.startswith("log-contents")
     with capture_logs(mod.__name__) as logs, patched_module(mod, world):
         if kind == "ksr":
             pol = trivial_request_policy()
             out = run_impl(
-                lambda: kl.load_ksr(Path(path), pol, raise_original=True),
+                lambda: kl.load_ksr(Path(path), pol, raise_original=True, log_contents=log_contents),
                 lambda q: {"tag": q.id, "xmlFilename": q.xml_filename, "xmlHash": None if q.xml_hash is None else hexs(q.xml_hash)},
             )
         else:
             rp = ResponsePolicy(num_bundles=9, validate_signatures=False)
-            out = run_impl(lambda: sl.load_skr(Path(path), rp), lambda q: {"tag": q.id})
-    return {"kind": kind, "tag": tag, "world": world, "out": out, "shown": shown_digests(logs), "path": path}
+            out = run_impl(lambda: sl.load_skr(Path(path), rp, log_contents=log_contents), lambda q: {"tag": q.id})
+    content_lines = None
+    if log_contents:
+        # records of the child logger ("…load.ksr" / "…load.skr"): "<filename> <lineno>: <line>"
+        content_lines = [r.getMessage().split(": ", 1)[1] if ": " in r.getMessage() else r.getMessage() for r in logs.records if r.name == f"{mod.__name__}.{kind}"]
+    return {"kind": kind, "tag": tag, "world": world, "out": out, "shown": shown_digests(logs), "path": path, "content_lines": content_lines}
 
 
 def _parse_oracle(kind: str, buf: bytes) -> str:
@@ -579,6 +588,8 @@ def stream_schedule(res: Result, tier: str, driver_ok: bool, ref: list[tuple[str
         scheds.append(("empty-at-read", [v[0], v[0], b"", v[1]]))
         scheds.append(("malformed-except-read", [b"garbage", b"x", v[5], b"garbage"]))
         scheds.append(("trailing-whitespace", [v[0], v[0], b"\n \n" + v[1] + b"\n\n  ", v[2]]))
+        scheds.append(("log-contents:every-op-differs", [v[0], v[1], v[2], v[3], v[4]]))
+        scheds.append(("log-contents:replaced-after-read", [v[0], v[0], v[0], v[1], v[2]]))
         for k in range(6 if tier == "quick" else 40):
             n = r.randrange(1, 7)
             pool = v + [big, b"", b"<KSR", v[0] + b"\n"]
@@ -642,6 +653,10 @@ def stream_schedule(res: Result, tier: str, driver_ok: bool, ref: list[tuple[str
                         res.violation("load_ksr: Request.xml_hash is not the hash of the bytes parsed", case, key="schedule:ksr:xml_hash", observed=obs, served_sha256=ref_hex(sha(served)))
                     if out["ok"]["xmlFilename"] != c["path"]:
                         res.violation("load_ksr: Request.xml_filename is not the file loaded", case, key="schedule:ksr:xml_filename", observed=obs)
+        if c["content_lines"] is not None and "ok" in out and served is not None:
+            # --log-ksr / --log-previous-skr: the contents logged are those of the bytes parsed (checked on the implementation only)
+            if c["content_lines"] != served.decode().splitlines():
+                res.violation(f"load_{kind}: the file contents logged are not the bytes parsed", case, key=f"schedule:{kind}:log-contents", observed=obs, logged_lines=len(c["content_lines"]))
         # ---- the tie to the model
         if m is not None:
             mres = m["result"]
@@ -1030,6 +1045,10 @@ def run(tier: str, driver_ok: bool) -> Result:
     return res
 
 
+def _case_key(case: Any) -> Any:
+    return {k: v for k, v in case.items() if k not in ("contents_sha256",)} if isinstance(case, dict) else case
+
+
 def replay(obj: dict[str, Any]) -> Any:
     """Re-run the stream the failing case came from and report what it says now for that case."""
     v = obj.get("violation") or obj.get("disagreement") or {}
@@ -1040,5 +1059,5 @@ def replay(obj: dict[str, Any]) -> Any:
     for name, fn in STREAMS:
         if name == stream or stream is None:
             fn(res, obj.get("tier", "quick"), True, ref)
-    hits = [x for x in res.violations + res.disagreements if x.get("case") == case]
+    hits = [x for x in res.violations + res.disagreements if _case_key(x.get("case")) == _case_key(case)]
     return {"case": case, "reproduced": bool(hits), "now": hits[:3], "violations_in_stream": len(res.violations), "disagreements_in_stream": len(res.disagreements)}
